@@ -74,6 +74,8 @@ theorem C18_tile_launch (h : Header) (T : Int) (check : Bool) (hv : h.Valid) (hs
   rw [tiledLaunch_closed h T check hv hs hT hrb hri, tiled_closed h T check hv hs hT]
 
 example : tiledLaunch ⟨0, 20, .lt, true, .addEq 3⟩ 4 true = [0, 3, 6, 9, 12, 15, 18] := by decide
+example : (blockHeader ⟨0, 20, .lt, true, .addEq 3⟩ 4).DimInRange ∧ (innerHeader ⟨0, 20, .lt, true, .addEq 3⟩ 4 0).DimInRange := by
+  decide
 
 /-- (d) The texts of the in-block bound `(xT ± stride)` and of the block stride are derived by the C expression
     grammar as the trees that were built, for tile sizes and steps of every operator class; those trees denote
